@@ -2,12 +2,14 @@
 # MANIFEST.setup_cmd: build everything from files on disk, offline.
 set -e
 cd "$(dirname "$0")"
+REPO="${VERIF_REPO:-/repo}"
+sed -i "s#^replace github.com/CloudyKit/jet/v6 => .*#replace github.com/CloudyKit/jet/v6 => $REPO#" harness/go.mod
 export GOFLAGS=-mod=mod GOPROXY=off GOSUMDB=off GOTOOLCHAIN=local
 mkdir -p build evidence replays
-cp /repo/go.sum harness/go.sum
+cp "$REPO/go.sum" harness/go.sum
 (cd harness && go build -o ../build/factgen ./cmd/factgen)
 rm -f lean/JetVerif/Generated/Facts.lean lean/JetVerif/Generated/Unicode.lean
-./build/factgen -repo /repo -o lean/JetVerif/Generated/Facts.lean -unicode lean/JetVerif/Generated/Unicode.lean
+./build/factgen -repo "$REPO" -o lean/JetVerif/Generated/Facts.lean -unicode lean/JetVerif/Generated/Unicode.lean
 (cd lean && lake build JetVerif jetdriver)
 (cd harness && go build -tags verif -o ../build/jetcheck ./cmd/jetcheck)
 echo setup ok
